@@ -8,6 +8,7 @@ import (
 	"os"
 	"os/exec"
 	"path/filepath"
+	"regexp"
 	"strconv"
 	"strings"
 
@@ -148,6 +149,81 @@ func (o *Observation) summary() string {
 	return s
 }
 
+// raceWitness is the shape of a known-finding witness that needs the race detector (or a crash) to show.
+type raceWitness struct {
+	Kind       string   `json:"kind"` // "race"
+	NMutex     int      `json:"nmutex"`
+	Caps       []int    `json:"caps"`
+	Cells      []string `json:"cells"`
+	Setup      []string `json:"setup"`
+	Runs       []string `json:"runs"`
+	Match      string   `json:"match"`   // regular expression over a race report / crash message that identifies the finding
+	Results    int      `json:"results"` // routines that report (default: one per entry of runs)
+	Repeat     int      `json:"repeat"`  // fresh processes to try
+	Observed   string   `json:"observed"`
+	Expected   string   `json:"expected"`
+	PlainCrash bool     `json:"plain_crash"` // may also kill the plain build (fatal error)
+}
+
+// replayRaceWitnesses runs every witness of kind "race" in fresh race-enabled workers.
+func replayRaceWitnesses(ctx *common.Ctx, raceBin, dir string) {
+	for _, id := range common.SortedKeys(ctx.Known) {
+		var w raceWitness
+		if err := json.Unmarshal(ctx.Known[id], &w); err != nil || w.Kind != "race" {
+			continue
+		}
+		if raceBin == "" {
+			continue // reported as not replayed
+		}
+		reps := w.Repeat
+		if reps <= 0 {
+			reps = 3
+		}
+		rx, rerr := regexp.Compile(w.Match)
+		if rerr != nil {
+			ctx.KnownResult(id, false, "bad match expression")
+			continue
+		}
+		found, seen := false, ""
+		for k := 0; k < reps && !found; k++ {
+			j := job{ID: 0, Kind: "lisp", NMutex: w.NMutex, Caps: w.Caps, Cells: w.Cells, Setup: w.Setup, Runs: w.Runs, Results: w.Results,
+				Procs: []int{4, 8, 2}[k%3], HardMS: 8000}
+			outs := runJobs(raceBin, dir, []job{j}, []string{"GORACE=halt_on_error=0", "VERIF_C17_COLD=1"})
+			oc := outs[0]
+			for _, rep := range oc.Races {
+				if rx.MatchString(rep) {
+					found, seen = true, "race: "+raceSignature(rep)
+					break
+				}
+			}
+			if !found && oc.Crash != "" && rx.MatchString(oc.Crash+oc.Stderr) {
+				found, seen = true, oc.Crash
+			}
+			if !found && oc.Res != nil && oc.Res.Hang && rx.MatchString("hang") {
+				found, seen = true, "hang"
+			}
+			if !found && seen == "" {
+				seen = fmt.Sprintf("%d race reports, none naming %s", len(oc.Races), w.Match)
+			}
+		}
+		ctx.KnownResult(id, found, seen)
+	}
+}
+
+// hostFault: the process died of something the model has no word for (a Go runtime fatal error, a nil
+// dereference, ...) rather than of an uncaught error in a routine
+func hostFault(crash string) bool {
+	if strings.HasPrefix(crash, "fatal error:") || strings.HasPrefix(crash, "FATAL") {
+		return true
+	}
+	for _, s := range []string{"runtime error:", "unexpected signal", "sync: ", "concurrent map", "worker process ended"} {
+		if strings.Contains(crash, s) {
+			return true
+		}
+	}
+	return false
+}
+
 func Run(ctx *common.Ctx) {
 	if os.Getenv("VERIF_C17_PROBE") != "" {
 		probe(ctx)
@@ -159,12 +235,43 @@ func Run(ctx *common.Ctx) {
 		panic(err)
 	}
 	defer os.RemoveAll(dir)
+	// the race-enabled worker is built while the plain one runs
+	raceCh := make(chan string, 1)
+	raceCtx := &common.Ctx{}
+	go func() { raceCh <- buildRace(raceCtx) }()
+
 	jobs := make([]job, len(progs))
 	for i, p := range progs {
 		pct := p.Yield
 		jobs[i] = toJob(i, p, func() bool { return pct > 0 && ctx.Rng.Chance(pct) })
 	}
-	outs := runJobs(selfBin(), dir, jobs, nil)
+	// implementation-only jobs, each under several GOMAXPROCS
+	var impls []implJob
+	reps := 3
+	if ctx.Thorough() {
+		reps = 12
+	}
+	uid := 0
+	for k := 0; k < reps; k++ {
+		for _, ij := range genImpl(ctx, uid) {
+			ij.Job.ID = len(jobs) + len(impls)
+			impls = append(impls, ij)
+		}
+		uid++
+	}
+	all := append([]job(nil), jobs...)
+	for _, ij := range impls {
+		all = append(all, ij.Job)
+	}
+	// two plain workers side by side
+	half := len(all) / 2
+	var outsA, outsB []jobOutcome
+	doneB := make(chan struct{})
+	go func() { outsB = runJobs(selfBin(), dir, all[half:], nil); close(doneB) }()
+	outsA = runJobs(selfBin(), dir, all[:half], nil)
+	<-doneB
+	outs := append(outsA, outsB...)
+
 	var terms []string
 	var descs []any
 	distinct := map[string]bool{}
@@ -172,6 +279,11 @@ func Run(ctx *common.Ctx) {
 		oc := &outs[i]
 		if oc.Skipped {
 			ctx.Violate("worker process could not be started", p.Shape, oc.Stderr, nil)
+			continue
+		}
+		if oc.Res == nil && hostFault(oc.Crash) {
+			ctx.Violate("the interpreter process died of a host fault while running a concurrent program", map[string]any{"shape": p.Shape,
+				"routines": jobs[i].Runs, "setup": jobs[i].Setup, "procs": p.Procs}, oc.Crash+"\n"+oc.Stderr, "no Go-level fatal error")
 			continue
 		}
 		obs, complaint := observe(p, oc)
@@ -210,8 +322,86 @@ func Run(ctx *common.Ctx) {
 			ctx.Sample(map[string]any{"shape": p.Shape, "routines": len(p.Code), "observed": obs.summary()})
 		}
 	}
+	for k := range impls {
+		ij := &impls[k]
+		oc := &outs[len(progs)+k]
+		ctx.Hist("shape:" + ij.Shape)
+		ctx.Meta.Evaluations++
+		if msg := judgeImpl(ij, oc); msg != "" {
+			ctx.Violate("implementation-only check ("+ij.Shape+"): "+msg, map[string]any{"setup": ij.Job.Setup, "routines": ij.Job.Runs, "procs": ij.Job.Procs},
+				oc.Stderr, "every routine finishes and sees the sequential values")
+		}
+	}
+
+	// ---- race-enabled worker: a sample of the model programs, the implementation-only jobs, the witnesses ----
+	raceBin := <-raceCh
+	ctx.Meta.Notes = append(ctx.Meta.Notes, raceCtx.Meta.Notes...)
+	extra := map[string]any{"race_build": raceBin != ""}
+	if raceBin != "" {
+		var rjobs []job
+		var what []string
+		nModel := 70
+		if ctx.Thorough() {
+			nModel = 600
+		}
+		for i, p := range progs {
+			if len(rjobs) >= nModel {
+				break
+			}
+			if CountOps(p.Code[0]) > 80 && i%3 != 0 {
+				continue
+			}
+			j := jobs[i]
+			j.ID = len(rjobs)
+			rjobs = append(rjobs, j)
+			what = append(what, p.Shape)
+		}
+		nmodel := len(rjobs)
+		rimpl := genImpl(ctx, 1000)
+		for _, ij := range rimpl {
+			ij.Job.ID = len(rjobs)
+			rjobs = append(rjobs, ij.Job)
+			what = append(what, ij.Shape)
+		}
+		routs := runJobs(raceBin, dir, rjobs, []string{"GORACE=halt_on_error=0"})
+		races := 0
+		for k := range routs {
+			oc := &routs[k]
+			ctx.Hist("race-run:" + what[k])
+			if len(oc.Races) > 0 {
+				races += len(oc.Races)
+				sigs := map[string]bool{}
+				for _, rep := range oc.Races {
+					sigs[raceSignature(rep)] = true
+				}
+				first := oc.Races[0]
+				if len(first) > 3000 {
+					first = first[:3000]
+				}
+				ctx.Violate("the race detector reports a data race in the interpreter ("+what[k]+")",
+					map[string]any{"setup": rjobs[k].Setup, "routines": rjobs[k].Runs, "procs": rjobs[k].Procs},
+					map[string]any{"signatures": common.SortedKeys(sigs), "first_report": first}, "no data race")
+			}
+			if k >= nmodel {
+				if msg := judgeImpl(&rimpl[k-nmodel], oc); msg != "" {
+					ctx.Violate("implementation-only check under the race detector ("+what[k]+"): "+msg,
+						map[string]any{"setup": rjobs[k].Setup, "routines": rjobs[k].Runs}, oc.Stderr, nil)
+				}
+			} else if oc.Res == nil && hostFault(oc.Crash) {
+				// the process may die of an uncaught error in a routine (the model's crash), never of a Go fatal error
+				ctx.Violate("the race-enabled worker died of a host fault ("+what[k]+")", map[string]any{"routines": rjobs[k].Runs}, oc.Crash, nil)
+			}
+		}
+		extra["race_jobs"] = len(rjobs)
+		extra["race_reports"] = races
+		ctx.Meta.Evaluations += len(rjobs)
+	}
+	replayRaceWitnesses(ctx, raceBin, dir)
+	ctx.ReplayKnownLisp()
+	ctx.Meta.Extra = extra
+
 	ctx.Meta.DistinctNontrivial = len(distinct)
-	ctx.Meta.Rule = "generated concurrent programs over the model's operations, each run on the implementation in a worker process; distinct = distinct programs"
+	ctx.Meta.Rule = "generated concurrent programs (<= 8 routines; producers/consumers over buffered and unbuffered channels with fixed pops, range+close, select, two stages; mutex-guarded and unguarded counters on globals, synchronized CLOS/flavors instances and hash entries; errors unwinding through with-mutex-lock; deliberate deadlocks; random mixes) run on the implementation in worker processes under GOMAXPROCS 1..16 with random yields; each observed outcome is replayed through the Coq model along a schedule found by guided search; plus implementation-only jobs (concurrent defvar/defun/defmethod/printing/set-synchronized) and a race-enabled worker; distinct = distinct programs"
 	header := "From C17 Require Import Model Spec Corr.\nOpen Scope nat_scope.\n"
 	footer := "Definition res := Eval vm_compute in check_all cases.\nPrint res.\nDefinition steps := Eval vm_compute in sched_steps cases.\nPrint steps.\nDefinition undecided_cases := Eval vm_compute in undecided cases.\nPrint undecided_cases.\n"
 	ctx.WriteShards("cases", header, "case", footer, terms, descs, 16)
